@@ -90,3 +90,21 @@ fn c12_guard_wrong_endpoint_fails() {
     kani::assume(from != to);
     assert!(<u8 as Lerp<f32>>::lerp_unclamped(from, to, 1.0) == from);
 }
+
+/// end points that f32 represents exactly but whose difference it does not (|to - from| >= 2^24): the far end is still `to`.
+/// KNOWN FINDING (open): the fast form rounds `(to as f32) - (from as f32)`; e.g. from = -2^24, to = 2^24 - 1, factor 1.0 gives 2^24.
+#[kani::proof]
+fn c12_lerp_wide_difference_i32_f32() {
+    let from: i32 = kani::any(); let to: i32 = kani::any();
+    kani::assume(from >= -(1 << 24) && from <= (1 << 24) && to >= -(1 << 24) && to <= (1 << 24));
+    assert!(<i32 as Lerp<f32>>::lerp_unclamped(from, to, 1.0) == to);
+}
+/// the same end points with differences that f32 represents exactly (|to - from| <= 2^24): both ends are hit (complete for that domain)
+#[kani::proof]
+fn c12_lerp_representable_difference_i32_f32() {
+    let from: i32 = kani::any(); let to: i32 = kani::any();
+    kani::assume(from >= -(1 << 23) && from <= (1 << 23) && to >= -(1 << 23) && to <= (1 << 23));
+    assert!(<i32 as Lerp<f32>>::lerp_unclamped(from, to, 0.0) == from);
+    assert!(<i32 as Lerp<f32>>::lerp_unclamped(from, to, 1.0) == to);
+    assert!(<i32 as Lerp<f32>>::lerp_unclamped_precise(from, to, 1.0) == to);
+}
